@@ -84,13 +84,69 @@ def terminator_rule(prog, report, funcs=None):
     return n
 
 
+LENGTH_PROBES = ("safec_strnlen_s", "strnlen", "strnlen_s", "_strnlen_s_chk", "wcsnlen", "wcsnlen_s", "_wcsnlen_s_chk")
+
+
+def precision_rule(prog, report, tu="src/str/vsnprintf_s.c", funcs=None):
+    """clause 'a %.Ns argument is read for at most N bytes': the bound handed to the length probe of a string argument is the precision
+    whenever one was given -- also when it is 0.  A bound of the shape `x ? x : <large constant>` (select or two-way merge whose
+    condition is `x != 0` for the very x it selects) treats an explicit 0 as "no bound" and measures the argument to its terminator;
+    the presence of a precision is a flag bit, not the value.  Returns the number of length-probe calls looked at."""
+    n = 0
+    for fn in (funcs if funcs is not None else [f for f in prog.allfuncs if f.mod["tu"] == tu]):
+        for c in fn.calls():
+            if (c.get("callee") or "") not in LENGTH_PROBES or len(c.get("args", ())) < 2:
+                continue
+            n += 1
+            b = c["args"][1]
+            d = fn.defs.get(b.get("id")) if b.get("k") == "v" else None
+            while d is not None and d["op"] in ("zext", "sext", "trunc"):
+                b = d["ops"][0]
+                d = fn.defs.get(b.get("id")) if b.get("k") == "v" else None
+            if d is None:
+                continue
+            alts, cond = None, None
+            if d["op"] == "select":
+                alts, cond = d["ops"][1:3], fn.defs.get(d["ops"][0].get("id"))
+            elif d["op"] == "phi" and len(d["incoming"]) == 2:
+                alts = [x["v"] for x in d["incoming"]]
+                # the branch that chooses between the two incoming edges
+                for x in d["incoming"]:
+                    t = fn.term(x["bb"])
+                    for pb in fn.blocks:
+                        tp = fn.term(pb)
+                        if tp["op"] == "br" and "cond" in tp and x["bb"] in (tp.get("t"), tp.get("f")) and tp["cond"].get("k") == "v":
+                            cond = cond or fn.defs.get(tp["cond"]["id"])
+            if not alts or cond is None:
+                continue
+            big = [a for a in alts if a.get("k") == "c" and (a["v"] < 0 or a["v"] >= 1024)]
+            var = [a for a in alts if a.get("k") == "v"]
+            if len(big) != 1 or len(var) != 1:
+                continue
+
+            def strip(o):
+                while o.get("k") == "v" and fn.defs.get(o["id"], {}).get("op") in ("zext", "sext", "trunc"):
+                    o = fn.defs[o["id"]]["ops"][0]
+                return o
+            if cond["op"] == "icmp" and cond["pred"] in ("eq", "ne") and any(o.get("k") == "c" and o.get("v") == 0 for o in cond["ops"]) and \
+                    any(strip(o).get("id") == strip(var[0]).get("id") for o in cond["ops"] if o.get("k") == "v"):
+                base = fn.name[1:-4] if fn.name.startswith("_") and fn.name.endswith("_chk") else fn.name
+                report("C02:zero-bound-means-unbounded:%s:%s" % (base, c.get("callee")), "P-precision-bounds-the-read", fn.loc(c),
+                       "%s bounds %s by `x ? x : %s`: an explicit bound of 0 (\"%%.0s\") is taken for no bound and the argument is read to its terminator"
+                       % (base, c.get("callee"), big[0]["v"]))
+    return n
+
+
 def run(ck):
     prog, info, st = capcommon.run(ck, "C02", "R", 250, 45)
     prim = prim_common.primitive_rule(ck, prog, "C02", ck.report)
     sib = siblings.rule(prog, ck.report, "C02", broken=ck.fail_broken)
     nterm = terminator_rule(prog, ck.report)
+    nprobe = precision_rule(prog, ck.report)
+    if nprobe < 3:
+        ck.fail_broken("precision rule: only %d length-probe calls found in the formatter (< 3)" % nprobe)
     fx = selftest(ck)
-    cov = dict(symmetric_copy_loop_pairs=sib, block_reader_calls_on_string_operands=nterm, primitives_by_byte_accounting={k: dict(paths=v.get("paths"), loops=v.get("loops"), iteration_paths=v.get("iteration_paths"), assumed_min_count=v.get("assumed_min_count"), call_sites=v.get("call_sites")) for k, v in prim.items()},
+    cov = dict(symmetric_copy_loop_pairs=sib, block_reader_calls_on_string_operands=nterm, formatter_length_probes=nprobe, primitives_by_byte_accounting={k: dict(paths=v.get("paths"), loops=v.get("loops"), iteration_paths=v.get("iteration_paths"), assumed_min_count=v.get("assumed_min_count"), call_sites=v.get("call_sites")) for k, v in prim.items()},
                explanation="%d read obligations over all function definitions: %d discharged, %d outside the reach of the domain in %d functions (listed with reasons, not claimed), "
                "the rest matched against known findings or reported." % (st["total"], st["discharged"], st["outside_reach"], len(st["outside_reach_functions"])),
                obligations=st["total"], discharged=st["discharged"], outside_reach=st["outside_reach"], outside_reach_functions=st["outside_reach_functions"],
@@ -124,4 +180,9 @@ def selftest(ck):
     out["terminator_rule"] = dict(calls=nt, reports=got)
     if got != ["C02:read-behind-terminator:fx2_span_memchr_declared:src:memchr"] or nt != 2:
         ck.fail_broken("fixture c02.c: terminator rule reported %s over %d calls" % (got, nt))
+    got = []
+    npb = precision_rule(prog, lambda key, *a, **k: got.append(key), funcs=[prog.funcs[n] for n in ("fx2_prec_value", "fx2_prec_flag")])
+    out["precision_rule"] = dict(calls=npb, reports=got)
+    if got != ["C02:zero-bound-means-unbounded:fx2_prec_value:strnlen"] or npb != 2:
+        ck.fail_broken("fixture c02.c: precision rule reported %s over %d calls" % (got, npb))
     return out
